@@ -150,7 +150,8 @@ def run_text(text):
         return {"raised": type(ex).__name__, "msg": str(ex)[:160], "where": "hed/" + where}
     if not isinstance(issues, list):
         return {"notlist": type(issues).__name__}
-    return {"issues": [(i.get("code"), i.get("severity", 1), i.get(EC_COL), i.get(EC_KEY)) for i in issues]}
+    return {"issues": [(str(i.get("code")), i.get("severity", 1), i.get(EC_COL), i.get(EC_KEY))
+                       if isinstance(i, dict) else ("<not a dict: %s>" % type(i).__name__, 1, None, None) for i in issues]}
 
 
 def judge(case, out):
